@@ -168,6 +168,16 @@ def check_rsum(ctx, prog):
               "input": r"^&('\w+ )?str$", "__iter": r"^std::iter::Peekable<\w+>$",
               "last_match": r"^std::option::Option<\(.*\)>$"}
     odd = {f: ftypes0.get(f) for f, pat in shapes.items() if not re.search(pat, ftypes0.get(f) or "")}
+    if "last_match" in odd:
+        # ... or as a private struct of this crate with the same four components
+        mm = re.match(r"^std::option::Option<([A-Za-z_][\w:]*)(<.*>)?>$", ftypes0.get("last_match") or "")
+        sa = util.adt(mm.group(1)) if mm else None
+        if sa is not None and len(sa["variants"]) == 1 and len(sa["variants"][0]["fields"]) == 4:
+            del odd["last_match"]
+    lay = use_saved_layout(prog)
+    if lay is None and not odd:
+        odd["last_match"] = "the four components (start, clone of the input, action, end) stored by " \
+                            "set_accepting_state were not found"
     if not ctx.ob("R-SUM", "Lexer's fields have the types the specification table is written for (state numbers, "
                   "the input string, a Peekable iterator, the saved match as an optional tuple); with another "
                   "representation the table has to be revised, nothing further is decided", not odd,
@@ -209,9 +219,17 @@ def check_rsum(ctx, prog):
     return result
 
 
-def _expect_changed(ctx, m, where, s, expected, what):
-    """`expected`: dict leaf -> value. All other leaves must be unchanged."""
+def _expect_changed(ctx, m, where, s, expected, what, may=None):
+    """`expected`: dict leaf -> value. All other leaves must be unchanged, except that the leaves in
+    `may` may take the value given there (an effect the contract permits but does not require)."""
     ok = True
+    if may:
+        expected = dict(expected)
+        hit = [lf for lf, v in may.items() if s.changed.get(lf) is not None]
+        if hit:
+            if all(s.changed.get(lf) == v for lf, v in may.items() if lf in s.changed) and \
+                    len(hit) == len(may):
+                expected.update(may)
     for lf, v in expected.items():
         got = s.changed.get(lf, ("entry", SELF, lf))
         if got != v:
@@ -259,9 +277,56 @@ def spec_reset_accepting_state(ctx, m, where, sums):
         _expect_changed(ctx, m, where, s, {("last_match",): NONE}, "always")
 
 
+# positions of the four components of the saved match (a tuple, or a private struct of lexgen_util seen
+# as a tuple of its fields in declaration order); found from what set_accepting_state stores
+SAVED = {"start": "0", "iter": "1", "action": "2", "end": "3"}
+
+
+def discover_saved_layout(prog):
+    util = prog.crate("lexgen_util")
+    body = util.body("Lexer::set_accepting_state")
+    if body is None:
+        return None
+    try:
+        eng, sums = summarize(prog, util, body)
+    except Exception:
+        return None
+    if len(sums) != 1:
+        return None
+    got = sums[0].changed.get(("last_match",))
+    if not (got is not None and got[0] == "adt" and got[2] == "Some"):
+        return None
+    t = got[4][0][1]
+    if not (t[0] == "tuple" and len(t[1]) == 4):
+        return None
+    lay = {}
+    for i, comp in enumerate(t[1]):
+        try:
+            locs = expand_loc(comp)
+        except Exception:
+            locs = None
+        if comp == pure("clone", (E("__iter"),)):
+            lay["iter"] = str(i)
+        elif comp == ("param", 2):
+            lay["action"] = str(i)
+        elif locs == loc_entry("current_match_start"):
+            lay["start"] = str(i)
+        elif locs == loc_entry("current_match_end"):
+            lay["end"] = str(i)
+    return lay if len(lay) == 4 else None
+
+
+def use_saved_layout(prog):
+    lay = discover_saved_layout(prog)
+    if lay is not None:
+        SAVED.update(lay)
+    return lay
+
+
 def saved_tuple():
-    return ("tuple", (E("current_match_start"), pure("clone", (E("__iter"),)), ("param", 2),
-                      E("current_match_end")))
+    comps = {SAVED["start"]: E("current_match_start"), SAVED["iter"]: pure("clone", (E("__iter"),)),
+             SAVED["action"]: ("param", 2), SAVED["end"]: E("current_match_end")}
+    return ("tuple", tuple(comps[str(i)] for i in range(4)))
 
 
 def spec_set_accepting_state(ctx, m, where, sums):
@@ -274,11 +339,12 @@ def spec_set_accepting_state(ctx, m, where, sums):
     if got is not None and got[0] == "adt" and got[2] == "Some":
         t = got[4][0][1]
         if t[0] == "tuple" and len(t[1]) == 4:
-            a, it, f, b = t[1]
+            a, it, f, b = (t[1][int(SAVED[k])] for k in ("start", "iter", "action", "end"))
             ok = (expand_loc(a) == loc_entry("current_match_start")
-                  and it == exp_tuple[1][1] and f == ("param", 2)
+                  and it == pure("clone", (E("__iter"),)) and f == ("param", 2)
                   and expand_loc(b) == loc_entry("current_match_end"))
-    ctx.ob("R-SUM", "set_accepting_state: last_match := Some((start, clone(__iter), f, end))", ok,
+    ctx.ob("R-SUM", "set_accepting_state: last_match := Some of (start, clone(__iter), f, end), in the order "
+           "of the saved match's components", ok,
            key="R-SUM:set_accepting_state:last_match", where=where,
            detail={"found": show(got) if got else None})
     extra = [lf for lf in s.changed if lf != ("last_match",)]
@@ -335,7 +401,10 @@ def spec_backtrack(ctx, m, where, sums):
     for s in none_paths:
         exp = {("__state",): ("int", 0, "usize"), ("__initial_state",): ("int", 0, "usize"),
                ("last_match",): NONE}
-        _expect_changed(ctx, m, where, s, exp, "nothing saved")
+        # the failure may already empty the current match (start := end) - every failure path has to, in
+        # the runtime or in the generated code that calls it (P6 decides that on the composition)
+        may = {("current_match_start", l): E("current_match_end", l) for l in LOC_FIELDS}
+        _expect_changed(ctx, m, where, s, exp, "nothing saved", may=may)
         r = s.ret
         ok = (r is not None and r[0] == "adt" and r[2] == "Err")
         if ok:
@@ -346,15 +415,15 @@ def spec_backtrack(ctx, m, where, sums):
         ctx.ob("R-SUM", "backtrack (nothing saved): returns Err{location: start@entry, InvalidToken}",
                ok, key="R-SUM:backtrack:none:ret", where=where, detail=show(r) if r else None)
     for s in some_paths:
-        exp = {("__done",): ("int", 0, "bool"), ("__iter",): project(t, "1"), ("last_match",): NONE}
+        exp = {("__done",): ("int", 0, "bool"), ("__iter",): project(t, SAVED["iter"]), ("last_match",): NONE}
         for i, l in enumerate(LOC_FIELDS):
-            exp[("current_match_start", l)] = project(project(t, "0"), l)
-            exp[("current_match_end", l)] = project(project(t, "3"), l)
+            exp[("current_match_start", l)] = project(project(t, SAVED["start"]), l)
+            exp[("current_match_end", l)] = project(project(t, SAVED["end"]), l)
             if "iter_loc" in LEXER_FIELDS:
-                exp[("iter_loc", l)] = project(project(t, "3"), l)
+                exp[("iter_loc", l)] = project(project(t, SAVED["end"]), l)
         _expect_changed(ctx, m, where, s, exp, "match saved")
         r = s.ret
-        ok = (r is not None and r[0] == "adt" and r[2] == "Ok" and r[4][0][1] == project(t, "2"))
+        ok = (r is not None and r[0] == "adt" and r[2] == "Ok" and r[4][0][1] == project(t, SAVED["action"]))
         ctx.ob("R-SUM", "backtrack (match saved): returns Ok(saved action)", ok,
                key="R-SUM:backtrack:some:ret", where=where, detail=show(r) if r else None)
 
